@@ -31,12 +31,14 @@ ReplyRec(kind, r) ==
   IN [kind |-> kind, src |-> r.src, start |-> r.start, cl |-> r.cl, cr |-> r.cr,
       body |-> body, total |-> Len(SrcOf(r.src)), full |-> Len(full),
       end |-> IF r.cut = NoCut THEN "eof" ELSE "drop",
-      range |-> IF RangeReq THEN 1 ELSE 0, off |-> readCur, max |-> readMax]
+      range |-> IF RangeReq THEN 1 ELSE 0, off |-> readCur, max |-> readMax,
+      ext |-> IF extused THEN 1 ELSE 0]
 NoReply == [src |-> "served", start |-> 0, cl |-> "absent", cr |-> "absent", cut |-> 0]
 
 GInit == Init /\ calls = <<>> /\ replies = <<>> /\ rets = <<>>
 GNext ==
   /\ \/ Open /\ UNCHANGED <<calls, replies>>
+     \/ OpenFailed /\ UNCHANGED <<calls, replies>>
      \/ \E k \in KS : Read(k) /\ calls' = Append(calls, [op |-> "read", k |-> k]) /\ UNCHANGED replies
      \/ Seek0 /\ calls' = Append(calls, [op |-> "seek0", k |-> 0]) /\ UNCHANGED replies
      \/ Tell /\ calls' = Append(calls, [op |-> "tell", k |-> 0]) /\ UNCHANGED replies
